@@ -113,3 +113,18 @@ Proof.
 Qed.
 
 Print Assumptions C04_entity_fragment_streams_agree.
+
+(* both fragments combined (coq/MixFrag.v, tied to each tokenizer with its own tables and limits by run_mixed): once the
+   depth limits agree (C04_limits_agree) the Python and the C instance give the same stream for EVERY string without U+0000 *)
+From MW Require MixFrag MixFragProofs.
+Theorem C04_mixed_fragment_streams_agree : forall names s, ~ In 0%N s ->
+  MixFrag.mfrag_tokens py_markers names (N.to_nat c_max_entity_size) (N.to_nat py_max_depth) s =
+  MixFrag.mfrag_tokens c_markers names (N.to_nat c_max_entity_size) (N.to_nat c_max_depth) s.
+Proof.
+  intros names s H0. rewrite (proj1 C04_limits_agree). apply MixFragProofs.mfrag_tokens_ext. intros c Hc.
+  assert (Hne : c <> 0%N) by (intros ->; contradiction).
+  change c_markers with (0%N :: py_markers). unfold EntityFrag.is_marker. cbn [existsb].
+  destruct (N.eqb_spec c 0); [contradiction|reflexivity].
+Qed.
+
+Print Assumptions C04_mixed_fragment_streams_agree.
